@@ -17,6 +17,7 @@ mod kworld;
 mod keys;
 mod model;
 mod net;
+mod netrecv;
 mod oracle;
 mod poolworld;
 mod props;
